@@ -61,7 +61,9 @@ JudgeTW(c) ==
   IN {
     Cl("C19.result", valid, c.out = "ok" /\ c.res = TroughWells(c.n, ws)),
     Cl("C19.length", valid /\ c.out = "ok", Len(c.res) = c.n),
-    Cl("C19.reject", ~valid, c.out # "ok")
+    \* a whole-valued float (3.0): refusing it and treating it as 3 are both in keeping with "non-integer n is rejected"
+    Cl("C19.reject", ~valid /\ c.ncls # "intfloat", c.out # "ok"),
+    Cl("C19.foreign", c.ncls = "intfloat" /\ c.n >= 0 /\ Len(ws) > 0 /\ c.out = "ok", c.res = TroughWells(c.n, ws))
   }
 
 (***************************************************************************)
